@@ -22,14 +22,18 @@ from vlib import sqlo
 
 PROP = 'C15'
 META = {
-    'extractors': ['inherit', 'pyinherit'],
+    'extractors': ['inherit', 'pyinherit', 'pyinhsel'],
     'technique': ('Lean 4 proof (invariant preserved by every operation, induction over histories and over the '
                   'class tree) + extracted control-flow facts of destroySelf / get / _create / deleteMany / deleteBy '
                   '+ differential correspondence on histories + raw-table oracle; InheritableSQLObject.destroySelf / '
                   'deleteMany / deleteBy / _create / get are TRANSLATED from the AST on every run '
                   '(vlib/extractors/pyinherit.py -> Extracted/PyInherit.lean, deep embedding Model/PyInherit.lean with an '
                   'explicit interface record for the calls into other objects) and the translated programs are proved equal '
-                  'to the hand model by symbolic execution, per level and along the whole class chain (C15_translated_*)'),
+                  'to the hand model by symbolic execution, per level and along the whole class chain (C15_translated_*); '
+                  'InheritableSelectResults.__init__ (the join-chain construction) is translated as well '
+                  '(vlib/extractors/pyinhsel.py -> Extracted/PyInhSel.lean, embedding Model/PyInhSel.lean with sets, dicts '
+                  'with del, continue, SQL expression values) and proved to build, for every class forest and registry order, '
+                  'a query whose rows are the hand model\'s selectRow rows, one per id (C15_translated_selectInit_*)'),
     'level_text': ('Theorems C15_*: for every well-formed class tree (any depth, any branching, forests) and every '
                    'history of create / attribute write / set / destroy through any entry level and class-level '
                    'deleteMany / deleteBy, the tables satisfy the no-orphan invariant (C15_no_orphan_inv); get through '
@@ -55,7 +59,10 @@ META = {
              'non-trivial = the history creates at least one instance of a subclass and uses at least two entry levels; '
              'plus a systematic sweep (every class created x every class as entry level x every operation kind) on the '
              'three-level hierarchy with sibling subclasses'),
-    'trusted': ['the AST translator vlib/extractors/pyinherit.py and the reference semantics of the deep embedding '
+    'trusted': ['the AST translator vlib/extractors/pyinhsel.py and the reference semantics of the deep embedding '
+                'Model/PyInhSel.lean; the SQL semantics given to clauses (Model/InhSelX.lean: Sat = cross product of the FROM '
+                'tables filtered by the WHERE clause)',
+                'the AST translator vlib/extractors/pyinherit.py and the reference semantics of the deep embedding '
                 'Model/PyInherit.lean (locals, dict values as insertion-ordered pair lists, for over a snapshot, while with a '
                 'fuel bound, try/except, calls through an interface record)',
                 'the interface assumed of SQLObject.destroySelf / _create / get, the parent class constructor, select / '
@@ -80,8 +87,15 @@ META = {
                     'get attaches it); a table without childName column holds no tag; the keywords of _create come in '
                     'declaration order (a dict is used through lookups only); select / selectBy return exactly the ids the '
                     'model selects (any order); InheritableSQLMeta.addColumn (getter/setter delegation closures built with '
-                    'eval / nested functions) and InheritableSelectResults.__init__ (join chain) are NOT translated: they '
-                    'stay hand-modelled and tied by the differential correspondence',
+                    'eval / nested functions), InheritableSQLObject.select / selectBy (clause building) and '
+                    'InheritableIteration (child prefetch) are NOT translated: they stay hand-modelled and tied by the '
+                    'differential correspondence',
+                    'translated InheritableSelectResults.__init__ (C15_translated_selectInit_*): interface in the header of '
+                    'Model/InhSelX.lean (tablesUsedSet = the tables of the clause, allClasses() = every class once in any order, '
+                    'distinct classes have distinct table names, SelectResults.__init__ selects FROM the tables of the clause '
+                    'plus the source table); the model tie is for filters over own and inherited columns of the class '
+                    '(all used tables on one class chain) with inheritedTables / orderBy absent; the general statement '
+                    '(any clause, any forest) is the pure join computation C15_translated_selectInit_eq_algo',
                     'only successful operations plus NotFound / AttributeError are modelled; failure atomicity of a child '
                     'INSERT and of a multi-level set() is property C06',
                     'objects are fetched through a class for every operation (public API); destroying the private '
